@@ -183,6 +183,10 @@ pub fn oracle_ref(s: &Store, bank: &Bank) -> Result<OracleRef, OracleErr> {
             if a.owner != pyth_solana_receiver_sdk::id() {
                 return Err(OracleErr::WrongOwner);
             }
+            let disc = <pyth_solana_receiver_sdk::price_update::PriceUpdateV2 as anchor_lang::Discriminator>::DISCRIMINATOR;
+            if a.data.len() < 8 || &a.data[..8] != disc {
+                return Err(OracleErr::BadData);
+            }
             let p = parse_pyth(&a.data).ok_or(OracleErr::BadData)?;
             if !p.full {
                 return Err(OracleErr::LowVerification);
